@@ -22,7 +22,8 @@ def gen_ili_file(rng):
         if 'status' in cols:
             row['status'] = rng.choice(['active', 'provisional', 'deprecated', 'weird status'])
         if 'definition' in cols:
-            row['definition'] = rng.choice(['def of ' + i, '', 'x < y & "z"'])
+            row['definition'] = rng.choice(['def of ' + i, '', 'x < y & "z"', '"quoted" at the start of ' + i,
+                                            '"unbalanced quote in ' + i, "it's " + i, 'ends with a quote "' ])
         fields = [row.get(c, '') for c in cols]
         if rng.random() < 0.35 and len(fields) > 1:
             fields = fields[:-1]              # a short line: the last column is missing
